@@ -83,7 +83,8 @@ def run(ctx):
         small_vocab = s % 2 == 0
         es = rwlib.gen_events(rng, rng.randint(4, 14), n_cue_alpha=3 if small_vocab else 7,
                               n_out_alpha=2 if small_vocab else 5, max_cues=3, max_outs=2,
-                              dups=pol != 0, late=not small_vocab, file_form=True)
+                              dups=pol != 0, late=not small_vocab, file_form=True,
+                              shared=s % 3 == 1)     # one vocabulary for cues and outcomes in a third of the sequences
         p = rwlib.gen_params(rng)
         n = len(es)
         cutsets = [[c] for c in range(1, n)] if (ctx.thorough or s < 4) else [[c] for c in rng.sample(range(1, n), min(3, n - 1))]
